@@ -19,8 +19,8 @@ SPEC = {
     "trusted": ["harness/api_rest/c11_rig_test.go: recording Cluster/PeerMonitor/IPFSConnector RPC services behind the real NewAPI",
                 "net/http, gorilla/mux cleanPath, rs/cors, net/url, go-cid, go-path, peer.Decode, PinOptions.FromQuery, AddParamsFromQuery, TrackerStatusFromString: outcomes are inputs of the model",
                 "tools/gen/restroutes.go, tools/gen/restclient.go (syntactic translators)"],
-    "level_text": "23 theorems (Props/C11.v, all closed) over the Gallina transcription of the REST layer (basic-auth wrapper outside rs/cors outside the router, "
-                  "mux matching with StrictSlash over the generated route table Gen/RestRoutes.v, the 21 handlers, sendResponse) and of the client's request "
+    "level_text": "26 theorems (Props/C11.v, all closed) over the Gallina transcription of the REST layer (basic-auth wrapper outside rs/cors outside the router, "
+                  "mux matching with StrictSlash over the generated route table Gen/RestRoutes.v (tied to the hand-written route_spec up to the order of routes that cannot answer a common request: rest_table_spec, rest_routes_equiv_dispatch), the 21 handlers, sendResponse) and of the client's request "
                   "construction (Gen/RestClient.v), for every request, parser outcome, credential configuration and RPC failure script: rest_fail_closed (a malformed "
                   "part: exactly 400, one document, no call), rest_wellformed_translated / rest_calls_exact (otherwise, and whenever anything is called, exactly the "
                   "operation the route names with the parsed CID / path / peer / options, against the hand-written spec_expect), rest_single_document (the NDJSON /add "
